@@ -13,16 +13,17 @@ import vlib
 RULE = (" || schedule part: fedlab cases (seed, index) with all knobs (KnobsFor tiers), each under the engine option sets "
         "(MultiFetch, ScheduleFetches) = (off,off), (on,on) [thorough: all four]; a case is CHECKED when its real plan has two or more "
         "concurrently runnable fetches and two or more requests; every subgraph response is then held and released one at a time, "
-        "completion orders enumerated depth-first over the decisions (quick: up to 24, plus 16 seeded random orders when the tree "
+        "completion orders enumerated depth-first over the decisions (quick: up to 24, plus 8 seeded random orders when the tree "
         "of decisions is not exhausted; thorough: 720 / 200). An evaluation is one gated run (one completion order) of one "
         "(case, option set); a checked case is non-trivial when at least two distinct completion orders were run. "
         "Fault mixes (after seeded C08-m6): every checked case is run again on a second engine built under a GENERATED resolver "
         "option set (presets default / apollo = value completion in extensions + suppress fetch errors / apollo-propagate / "
-        "apollo-vc / apollo-suppress / wrapped / passthrough / router-http / validate-external / random bits; one per "
+        "apollo-vc / apollo-suppress / wrapped / passthrough / router-http / validate-external / custom-ext / custom-ext-last "
+        "(forwarded subgraph extensions) / random bits; one per "
         "(seed, configuration, engine option set)) with 2-3 of the requests that are in flight at the same time answered by "
         "drawn fault kinds (errors without data, {} and {\"data\":null} = neither data nor errors, errors with partial data, a "
-        "dropped / nulled member, null / missing entity, transport error, status 500); the faulted responses are released in "
-        "EVERY relative order (merge order = release order: 0.4 ms pause after a release) plus seeded random orders and the "
+        "dropped / nulled member, null / missing entity, transport error, status 500, extra extensions member); the faulted responses are released in "
+        "EVERY relative order (merge order = release order: 0.4 ms pause after a release) plus seeded random orders (quick: one, for the no-data mix) and the "
         "WHOLE response (top-level members and their order, data and extensions byte for byte, errors as a multiset) and the "
         "request multiset must be the same in all of them; the fault-free gated runs compare the whole response too.")
 
@@ -31,24 +32,18 @@ CLAUSES = ["response_order_independent", "response_order_independent/whole", "re
            "tree_respected_at_runtime", "exactly_once", "deps_cover_reads", "writes_compatible"]
 
 
-EXT_KEYS = ("forwarded-extensions-key-order", "extension-forwarding-order")
+EXT_KEY = "extension-forwarding-order"
 
 
 def classify(clause, detail):
-    """known-finding key of a violation of the schedule part: the two findings about forwarded subgraph extensions
-    (resolver presets custom-ext / custom-ext-last, only run when both keys are listed in KNOWN_FINDINGS.txt)"""
-    if clause != "response_order_independent/faults" or "resolver options custom-ext" not in detail:
-        return None
-    m = re.search(r'member "extensions" differs: (\{.*\}) vs (\{.*?\}) \|\| order A', detail)
-    if not m:
-        return None
-    try:
-        a, b = json.loads(m.group(1)), json.loads(m.group(2))
-    except ValueError:
-        return EXT_KEYS[1]
-    # the same members in another order: Resolvable.printExtensions ranges over a map; otherwise first_write /
-    # last_write picked another subgraph's value because the merge order changed
-    return EXT_KEYS[0] if a == b else EXT_KEYS[1]
+    """known-finding key of a violation of the schedule part.  Only one is recorded: under the resolver presets that
+    forward subgraph extensions (custom-ext, custom-ext-last) first_write / last_write follow the merge order.  The
+    harness marks exactly that shape -- the responses differ ONLY in the value of forwarded extension keys that two
+    fetches in flight together returned; everything else (e.g. another key order) stays a violation."""
+    if clause == "response_order_independent/faults" and "resolver options custom-ext" in detail \
+            and "[forwarded-extension-value-conflict keys=" in detail:
+        return EXT_KEY
+    return None
 
 
 def schedule_properties():
@@ -227,14 +222,11 @@ def run_part(chk):
         chk.add_violation("tie:C08e/model-build", logm[-2000:], found_input=False)
     corpus = os.path.join(vlib.ROOT, "corpus", "C08e", "cases.tsv")
     if os.path.exists(corpus):
-        ext0 = " -extfwd 1" if all(chk.match_known(k) for k in EXT_KEYS) else ""
-        r = _run_harness(chk, exe, "corpus -in %s -tier %s%s" % (corpus, chk.tier, ext0), "corpus", 1200)
+        r = _run_harness(chk, exe, "corpus -in %s -tier %s" % (corpus, chk.tier), "corpus", 1200)
         if r:
             _fold(chk, part, *r)
-    n = 220 if chk.tier == "quick" else 1500
-    ext = " -extfwd 1" if all(chk.match_known(k) for k in EXT_KEYS) else ""
-    part["extension_forwarding_presets"] = bool(ext)
-    r = _run_harness(chk, exe, "gen -seed %d -n %d -knobs all -tier %s%s" % (chk.seed, n, chk.tier, ext), "gen", 3 * 3600)
+    n = 200 if chk.tier == "quick" else 1500
+    r = _run_harness(chk, exe, "gen -seed %d -n %d -knobs all -tier %s" % (chk.seed, n, chk.tier), "gen", 3 * 3600)
     if r:
         _fold(chk, part, *r)
     tot = part["totals"]
